@@ -106,7 +106,7 @@ def run(ctx):
             loc = inst.astimezone(pytz.timezone(tzname))
             cases.append({"s": str(secs) + "263", "langs": ["en"], "settings": {"RELATIVE_BASE": bases[0], "TIMEZONE": tzname},
                           "expect": expect_str(loc.replace(tzinfo=None, microsecond=263000)), "stratum": "epoch/every-tz-database-name"})
-    res = decide(ctx, cases, model_share=1.0 if tier == "quick" else 0.25)
+    res = decide(ctx, cases, model_share=1.0)
     res["assumptions"] = ["IANA zones for the epoch form: the model is parametric (cases reported as rejected 'iana'); pytz is the oracle",
                           "the English string→token glue (sanitize, translate, tokenizer classification) is modelled and validated by the model tie on every sampled date"]
     return res
